@@ -711,6 +711,26 @@ func genC05(r *world.Rng, w *world.World, big bool) {
 			t.N = r.Range(0, 6)
 			t.Route = "slicenb"
 		}
+		if len(t.Clauses) < t.N && t.N > 8 {
+			// nearly unconstrained: thousands of models, one enumeration step each; keep the world cheap
+			t.N = 8
+			var keep2 [][]int
+			for _, c := range t.Clauses {
+				ok := true
+				for _, l := range c {
+					if l > 8 || l < -8 {
+						ok = false
+					}
+				}
+				if ok {
+					keep2 = append(keep2, c)
+				}
+			}
+			t.Clauses = keep2
+			if t.Route == "dimacs" {
+				t.Text = dimacsText(r, t.N, t.Clauses, false)
+			}
+		}
 		if r.Bool(0.1) { // fully decided at parse time
 			t.N = r.Range(1, 6)
 			t.Clauses = [][]int{}
